@@ -375,6 +375,9 @@ def run(ctx, chk):
                                         "sandy2x decoder: h9 has 25 bits by construction, `carry9 = h9 >> 25` is zero by design")], floor=60)
     knownbits.select_idiom_rule(prog, chk, "R10.4", BACKEND_UNITS, floor=3)
 
+    # ---- R10.6 the portable AES block helpers use every bit of their integer operands (E11) ----------------------------------
+    softaes_rule(ctx, prog, chk)
+
     # ---- R10.5 sibling agreement of the Argon2 block-fill backends (E7) ---------------------------------------------------
     cm.sibling_skeleton_rule(prog, chk, "R10.5", ["argon2_fill_segment_ref", "argon2_fill_segment_ssse3", "argon2_fill_segment_avx2",
                                                    "argon2_fill_segment_avx512f"], {0: "INST", 1: "POS"},
@@ -409,3 +412,34 @@ def slot_of(cg, f, ins):
     if a[0] == "ce" and a[1] == "getelementptr":
         return cg._slot_of_gep(f, a[3])
     return None
+
+
+def softaes_rule(ctx, prog, chk):
+    """R10.6: the software counterparts of the AES-NI lane intrinsics (softaes_block_*) let every bit of an integer operand reach
+    the block they build - _mm_set_epi64x(a, b) does, so a helper that drops or duplicates a lane makes the portable backend
+    differ from the hardware one (for AEGIS: the length block of the tag, for messages / AD >= 2^29 bytes)"""
+    from .. import bitflow, e9
+    units = {}
+    n = 0
+    for fn in sorted(prog.functions(), key=lambda f: (f.unit, f.name)):
+        if not fn.sname.startswith("softaes_block_"):
+            continue
+        for k, p in enumerate(fn.params):
+            if p["ty"] not in ("i64", "i32"):
+                continue
+            if fn.unit not in units:
+                units[fn.unit] = bitflow.BitFlow(e9.O2Unit(ctx, fn.unit))
+            bf = units[fn.unit]
+            if fn.name not in bf.unit.fns:
+                continue                   # not emitted at -O2 (unused static inline)
+            width = int(p["ty"][1:])
+            dead = []
+            for b in range(width):
+                r = bf.analyse_int(fn.name, k, b)
+                if not (r["ret"] or r["stores"] or r["calls"]):
+                    dead.append(b)
+            n += 1
+            chk.ob("R10.6", fn, "every bit of the integer operand %s reaches the block built by %s" % (p["name"], fn.sname), not dead,
+                   detail="bits %d..%d of %s are dropped: the portable backend builds a different block than the AES-NI one" %
+                   (dead[0], dead[-1], p["name"]) if dead else "", key="R10.6 %s %s %s" % (fn.sname, p["name"], fn.unit.split("/")[-1]))
+    chk.floor("R10.6", "integer operands of softaes_block_* helpers", n, 4)
